@@ -16,7 +16,7 @@ from . import nf
 from .model import AnalysisError, ClassInfo, FunctionInfo, Program
 from .values import (
     J, Arr2, BoolV, BoundExt, Buf, ClassV, DictV, EnumV, ExtObj, ExtV, FuncV, Inst, LambdaV,
-    NoneV, Num, RangeV, SetV, SliceV, StrV, SuperV, TupV, Val, Vec, const_num, sym_num,
+    NoneV, Num, RangeV, SetV, SliceV, StarV, StrV, SuperV, TupV, Val, Vec, const_num, sym_num,
 )
 
 MAX_DEPTH = 14
@@ -359,6 +359,8 @@ class Interp:
             return nf.sym(f"<lambda@{v.node.lineno}>")
         if isinstance(v, BoundExt):
             return nf.fn("." + v.meth, self.to_nf(v.recv))
+        if isinstance(v, StarV):
+            return nf.fn("*", self.to_nf(v.inner))
         if isinstance(v, SliceV):
             return nf.fn("slice", *[self.to_nf(x) for x in (v.lo, v.hi, v.step)])
         if isinstance(v, RangeV):
@@ -908,7 +910,7 @@ class Interp:
                 if isinstance(v, TupV):
                     out += v.items
                 else:
-                    out.append(Num(nf.fn("*", self.to_nf(v))))
+                    out.append(StarV(v))
             else:
                 out.append(self.eval(e, env))
         return out
@@ -1233,6 +1235,21 @@ class Interp:
             params = params[1:]
         bound = {}
         pos = list(args)
+        if any(isinstance(a, StarV) for a in pos):
+            # f(a, *t, b): t supplies as many positional parameters as the others leave unfilled
+            required = [p for p in params if p not in kwargs and p not in fi.defaults()]
+            n_other = sum(1 for a in pos if not isinstance(a, StarV))
+            n_star = max(len(required) - n_other, 0)
+            if sum(isinstance(a, StarV) for a in pos) != 1:
+                raise AnalysisError(f"{fi.qualname}: more than one starred argument at line {getattr(node, 'lineno', 0)}")
+            exp = []
+            for a in pos:
+                if isinstance(a, StarV):
+                    base = self.to_nf(a.inner)
+                    exp += [Num(nf.fn("item", base, nf.const(k))) for k in range(n_star)]
+                else:
+                    exp.append(a)
+            pos = exp
         for p in params:
             if pos:
                 bound[p] = pos.pop(0)
